@@ -167,6 +167,17 @@ func GenC02(seed uint64, i int) *world.Case {
 		}
 		c.Faults = append(c.Faults, f)
 	}
+	// Sometimes: the machine dies right after a task's run returned, and the
+	// driver goroutine is held until the loss has been noticed (the window
+	// between a task's completion and the driver recording it).
+	if r.Chance(0.2) {
+		ka := 3 * time.Minute
+		if len(c.Config.Keepalive) > 1 {
+			ka = 40 * time.Second
+		}
+		c.Faults = append(c.Faults, &simnet.Fault{At: simnet.Match{Point: "yield", Method: "bm.returned", Occ: 1 + r.Intn(6)}, Do: "kill", Arg: int64(ka)})
+		kills++
+	}
 	// Replacement policy.
 	if r.Chance(0.25) && kills < len(mlist) {
 		c.Config.MaxMachines = len(mlist)
@@ -248,7 +259,7 @@ func C02(tier string, seed uint64) int {
 	fmt.Printf("verif: C02 single-fault sweep: %d cases over %d base programs\n", len(sweep), nsweep)
 	b := &Batch{
 		Property: "C02", Tier: tier, Seed: seed, Level: "fault_enumeration",
-		Rule: "fault-suite programs (map-only, reduce, cogroup, fold, multi-stage, reused results) on the simulated cluster; (a) sweep: for each base program, one run per (RPC seam event of the fault-free run x {kill callee, kill each other machine, drop Worker.Run reply}); (b) seeded plans of 1-4 faults (kill callee/bystander, drop, stall, cut-stream) placed on seam events of a reconnaissance run, with or without replacement machines; oracle: success with rows == reference, or error; no hang within 6h simulated; success required when at most 2 kills and capacity remains; distinct = distinct (ordered seam-event sequence, per-step result digest)",
+		Rule: "fault-suite programs (map-only, reduce, cogroup, fold, multi-stage, reused results) on the simulated cluster; (a) sweep: for each base program, one run per (RPC seam event of the fault-free run x {kill callee, kill each other machine, drop Worker.Run reply}); (b) seeded plans of 1-4 faults (kill callee/bystander, drop, stall, cut-stream) placed on seam events of a reconnaissance run, with or without replacement machines; oracle: success with rows == reference, or error; no hang within 4h simulated; success required when at most 2 kills and capacity remains; distinct = distinct (ordered seam-event sequence, per-step result digest)",
 		Gen: func(i int) *world.Case {
 			if i < len(sweep) {
 				return sweep[i]
